@@ -92,6 +92,7 @@ type Task struct {
 	simWait   int32 // > 0 while the task waits inside simrt itself (bolt helper goroutine)
 	waking    int32 // set by whoever hands this task the baton, cleared by the task once it runs
 	parent    *Task // the task that spawned this one with Go (nil for the tasks of the harness)
+	sim       *Sim
 }
 
 type abortT struct{}
@@ -202,7 +203,7 @@ func NewSim(seed int64, pol Policy, replay []Deviation, isReplay bool, budget in
 
 // Spawn registers a task.  Tasks start running only inside Run.
 func (s *Sim) Spawn(name string, f func()) *Task {
-	t := &Task{ID: len(s.tasks), Name: name, wake: make(chan struct{}, 1), holding: map[string]int{}}
+	t := &Task{ID: len(s.tasks), Name: name, wake: make(chan struct{}, 1), holding: map[string]int{}, sim: s}
 	if s.cur != nil {
 		t.inServer = atomic.LoadInt32(&s.cur.inServer)
 		t.parent = s.cur
@@ -535,6 +536,21 @@ func behindStalledPeer(t *Task) bool {
 	for p := t.parent; p != nil; p = p.parent {
 		if p.state == stExternal {
 			return true
+		}
+	}
+	// ... or the other way round: the request's own goroutine waits on a
+	// channel for a helper goroutine it started, and it is the helper that
+	// reads from the client that stopped sending
+	if t.state == stChan && t.sim != nil {
+		for _, x := range t.sim.tasks {
+			if x.state != stExternal {
+				continue
+			}
+			for p := x.parent; p != nil; p = p.parent {
+				if p == t {
+					return true
+				}
+			}
 		}
 	}
 	return false
